@@ -25,7 +25,9 @@ DateInst(v) == Inst(v.dn, 0, 0)
 
 OkDate(dn) == [k |-> "ok", dn |-> dn]
 OkDt(i, off) == [k |-> "ok", dn |-> i.dn, sod |-> i.sod, ns |-> i.ns, off |-> off]
-OkTime(t, off) == [k |-> "ok", nod |-> TodWide(t), off |-> off, eqc |-> TRUE]
+\* as_nanos, the offset, equality with a freshly built canonical Time, as_seconds and as_hms (stored, not local, fields)
+OkTime(t, off) == [k |-> "ok", nod |-> TodWide(t), off |-> off, eqc |-> TRUE,
+                   secs |-> FromInt(t.sod), hms |-> <<FromInt(Hour(t.sod)), Minute(t.sod), Second(t.sod)>>]
 OkVal(v) == [k |-> "ok", v |-> v]
 
 \* outcome -> value stored in the destination register
@@ -111,7 +113,7 @@ DtFromTimestamp(ts) ==
   IN IF DayInRange(s.dnw) THEN {OkDt(Inst(ToInt32(s.dnw), s.sod, 0), 0)} ELSE {Panic}
 
 DtCmp(a, b) == LET c == CmpInst(InstOf(a), InstOf(b))
-               IN {[k |-> "ok", cmp |-> c, eq |-> (c = 0), lt |-> (c < 0), le |-> (c <= 0)]}
+               IN {[k |-> "ok", cmp |-> c, eq |-> (c = 0), lt |-> (c < 0), le |-> (c <= 0), coherent |-> TRUE]}
 
 DtDurBetween(a, b) == LET d == AsDuration(AbsDiff(InstOf(a), InstOf(b)))
                       IN {[k |-> "ok", secs |-> d[1], ns |-> d[2]]}
@@ -142,7 +144,7 @@ DateFieldsOut(a) ==
   IN {[k |-> "ok", y |-> ymd[1], m |-> ymd[2], d |-> ymd[3], wd |-> Weekday(a.dn), doy |-> Doy(a.dn)]}
 
 DateCmp(a, b) == LET c == IF a.dn < b.dn THEN -1 ELSE IF a.dn > b.dn THEN 1 ELSE 0
-                 IN {[k |-> "ok", cmp |-> c, eq |-> (c = 0), lt |-> (c < 0), le |-> (c <= 0)]}
+                 IN {[k |-> "ok", cmp |-> c, eq |-> (c = 0), lt |-> (c < 0), le |-> (c <= 0), coherent |-> TRUE]}
 
 (***************************************************************************)
 (* Time                                                                    *)
@@ -169,7 +171,7 @@ TimeSetOffset(a, o) == IF ~ValidOffset(o) THEN {AnyOutcome} ELSE {OkTime(TodOf(a
 TimeAsOffset(a, o) == IF ~ValidOffset(o) THEN {AnyOutcome} ELSE {OkTime(TodUtc(TodOf(a), o), o)}
 
 TimeCmp(a, b) == LET c == Sign(Sub(TodWide(TodOf(a)), TodWide(TodOf(b))))
-                 IN {[k |-> "ok", cmp |-> c, eq |-> (c = 0), lt |-> (c < 0), le |-> (c <= 0)]}
+                 IN {[k |-> "ok", cmp |-> c, eq |-> (c = 0), lt |-> (c < 0), le |-> (c <= 0), coherent |-> TRUE]}
 
 TimeDurBetween(a, b) == LET d == AsDuration(Abs(Sub(TodWide(TodOf(a)), TodWide(TodOf(b)))))
                         IN {[k |-> "ok", secs |-> d[1], ns |-> d[2]]}
@@ -249,7 +251,12 @@ Allowed(e, a, b) ==
     [] op = "dt_as_offset" -> DtAsOffset(a, e.o)
     [] op = "dt_from_date" -> {OkDt(Inst(a.dn, 0, 0), 0)}
     [] op = "dt_from_time" -> {OkDt(Inst(0, a.sod, a.ns), a.off)}
-    [] op = "dt_set_time" -> {OkDt(Inst(a.dn, b.sod, b.ns), a.off)}
+    [] op = "dt_set_time" -> IF LocalOf(Inst(a.dn, b.sod, b.ns), a.off).ok
+                             THEN {OkDt(Inst(a.dn, b.sod, b.ns), a.off)} ELSE {AnyOutcome}
+    \* now(): any instant between the two clock readings the environment took around the call, UTC
+    [] op \in {"dt_now", "date_now", "time_now"} -> {[k |-> "between", lo |-> e.t0, hi |-> e.t1]}
+    [] op = "dt_copy" -> {OkDt(InstOf(a), a.off)}
+    [] op = "dt_default" -> {OkDt(Inst(0, 0, 0), 0)}
     [] op = "dt_from_ymd" -> DtFromYmd(e.y, e.m, e.d)
     [] op = "dt_from_hms" -> DtFromHms(e.h, e.mi, e.s)
     [] op = "dt_from_ymdhms" -> DtFromYmdHms(e.y, e.m, e.d, e.h, e.mi, e.s)
@@ -271,6 +278,8 @@ Allowed(e, a, b) ==
     [] op = "date_set" -> DateSet(a, e.f, NatOf(e.v), Big(e.v))
     [] op = "date_clear" -> DateClear(a, e.f)
     [] op = "date_from_dt" -> {OkDate(a.dn)}
+    [] op = "date_copy" -> {OkDate(a.dn)}
+    [] op = "date_default" -> {OkDate(0)}
     [] op = "date_from_ymd" -> DateFromYmd(e.y, e.m, e.d)
     [] op \in {"time_add", "time_sub"} -> TimeShifted(a, Amount(e.n, e.u), SignOf(op))
     [] op \in {"time_add_dur", "time_sub_dur"} -> TimeShifted(a, DurationNs(e.secs, e.ns), SignOf(op))
@@ -284,6 +293,8 @@ Allowed(e, a, b) ==
     [] op = "time_set_offset" -> TimeSetOffset(a, e.o)
     [] op = "time_as_offset" -> TimeAsOffset(a, e.o)
     [] op = "time_from_dt" -> {OkTime(TodOf(a), a.off)}
+    [] op = "time_copy" -> {OkTime(TodOf(a), a.off)}
+    [] op = "time_default" -> {OkTime([sod |-> 0, ns |-> 0], 0)}
     [] op = "time_from_hms" -> TimeFromHms(e.h, e.mi, e.s)
     [] op = "time_from_seconds" -> TimeFromSeconds(e.s)
     [] op = "time_from_nanos" -> TimeFromNanos(e.n)
@@ -296,12 +307,12 @@ ResultType(op) ==
   IF op \in {"dt_add", "dt_sub", "dt_add_dur", "dt_sub_dur", "dt_add_time", "dt_sub_time", "dt_add_months",
              "dt_sub_months", "dt_add_years", "dt_sub_years", "dt_from_ts", "dt_set", "dt_clear", "dt_set_offset",
              "dt_as_offset", "dt_from_date", "dt_from_time", "dt_set_time", "dt_from_ymd", "dt_from_hms",
-             "dt_from_ymdhms"} THEN "dt"
+             "dt_from_ymdhms", "dt_copy", "dt_default", "dt_now"} THEN "dt"
   ELSE IF op \in {"date_add", "date_sub", "date_add_dur", "date_sub_dur", "date_add_months", "date_sub_months",
                   "date_add_years", "date_sub_years", "date_from_ts", "date_set", "date_clear", "date_from_dt",
-                  "date_from_ymd"} THEN "date"
+                  "date_from_ymd", "date_copy", "date_default", "date_now"} THEN "date"
   ELSE IF op \in {"time_add", "time_sub", "time_add_dur", "time_sub_dur", "time_add_time", "time_sub_time",
                   "time_set", "time_clear", "time_set_offset", "time_as_offset", "time_from_dt", "time_from_hms",
-                  "time_from_seconds", "time_from_nanos"} THEN "time"
+                  "time_from_seconds", "time_from_nanos", "time_copy", "time_default", "time_now"} THEN "time"
   ELSE "none"
 =============================================================================
